@@ -5,7 +5,7 @@ import os
 
 from .util import safe_call
 
-NAMES = ["md5", "MD5", "Md5", "sha256", "SHA256", "sha1", "md5-dos2unix", "blake3", "MD5-DOS2UNIX"]
+NAMES = ["md5", "MD5", "Md5", "sha256", "SHA256", "sha1", "md5-dos2unix", "blake3", "MD5-DOS2UNIX", "Md5-Dos2Unix"]
 
 
 class ChunkFile(io.RawIOBase):
@@ -145,10 +145,13 @@ def run_streams(ctx, n):
             ctx.oracle(False, case, {"impl": impl, "why": "hash stream raised"})
             continue
         ok = impl["passed"] == [c.hex() for c in chunks]
-        if name != "md5-dos2unix":
+        if name.lower() != "md5-dos2unix":
             ok = ok and impl["digest"] == ref_digest(name, data) and impl["total"] == len(data)
             ok = ok and impl["fobj_md5"] == ref_digest(name, data)
-        elif len(chunks) == 1:
+        else:
+            # the text-normalising stream, too, counts the bytes it read (not the bytes it hashed)
+            ok = ok and impl["total"] == len(data)
+        if name.lower() == "md5-dos2unix" and len(chunks) == 1:
             from_text = _is_text_ref(data[:512])
             exp = hashlib.md5(data.replace(b"\r\n", b"\n") if from_text else data).hexdigest()
             ok = ok and impl["digest"] == exp and impl["fobj_md5"] == exp
@@ -291,7 +294,7 @@ def replay(ctx, payload):
         ctx.case(c)
         ctx.corr("replay", c, impl, {"passed": ans["passed"], "total": ans["total"], "digest": ref_digest(c["name"], fed), "fobj_md5": ref_digest(c["name"], fed)})
         data = b"".join(chunks)
-        if c["name"] != "md5-dos2unix":
+        if c["name"].lower() != "md5-dos2unix":
             ctx.oracle("err" not in impl and impl["digest"] == ref_digest(c["name"], data) and impl["total"] == len(data) and impl["passed"] == c["chunks"] and impl["fobj_md5"] == ref_digest(c["name"], data), c, {"impl": impl})
         else:
             ctx.oracle("err" not in impl and impl["passed"] == c["chunks"], c, {"impl": impl})
